@@ -145,6 +145,8 @@ int c_var2h(int nvalvar, int nvalh,
             /* Loop */
             varindex++;
             if(varindex+1>=nvalvar) {
+                /* No more data: the period is not fully covered */
+                if(t2<end) miss=1;
                 break;
             }
 
